@@ -231,6 +231,51 @@ INFO5 = {
  "C20-10": ("ReadRouterInfo calls Validate() after parsing and returns the populated value with the error", "correctly signed RouterInfo with zero addresses or published = 0: VerifySignature() true on the value returned with an error"),
 }
 MISSED_FIRST_5 = ["C05-9", "C05-10", "C10-9", "C13-10", "C11-10", "C15-10", "C07-10", "C12-10", "C16-10", "C09-10", "C04-10", "C06-10", "C14-10"]
+
+# round 6 (Go idioms applied where they are not equivalent; least visited clauses); patch k kept as <ID>-<k+10>
+INFO6 = {
+ "C01-11": ("NULL-certificate identities bypass ReadCertificate: certificate assumed to be the literal 00 00 00, remainder at offset 387", "NULL certificate with a non-zero length field"),
+ "C01-12": ("legacy LeaseSet: an ElGamal key failing the range check is 'kept as opaque bytes' but the error branch never copies them (zeros stored)", "encryption_key field that reads as 1 or >= p-1 (e.g. all 0xff)"),
+ "C02-11": ("createTransportOptions returns &data.Mapping{} for a nil map: Bytes() omits the 2-byte size field", "NewRouterAddress(..., nil)"),
+ "C02-12": ("validateExpiresOffset compares against LEASESET2_TYPICAL_MAX_EXPIRES (660)", "NewLeaseSet2 with an expires offset above 660"),
+ "C03-11": ("parseSignatureData wraps the error but still returns a literal nil", "RouterInfo cut anywhere inside its trailing signature: accepted"),
+ "C03-12": ("legacy parseLeases multiplies the lease count by the lease size in uint8", "legacy LeaseSet with 6..16 leases"),
+ "C04-11": ("MetaLeaseSet header-size check moved before the destination parse (on the whole input): parseHeaderFields slices out of range", "input >= 478 bytes whose destination is >= 471 bytes long, followed by 0..7 bytes"),
+ "C04-12": ("RouterVersion() drops the length byte with Get(key)[1:]; Get returns nil for an absent key", "RouterInfo without a router.version option, then RouterVersion() / GoodVersion()"),
+ "C05-11": ("Mapping.Data() sorts a copy of the pairs: the wire order of pairs is no longer covered by any re-serialising verifier", "signed structure whose option pairs are exchanged on the wire"),
+ "C05-12": ("verifyRouterInfoSignature: for DSA / ECDSA identities the result of verifier.Verify is only logged", "RouterInfo with a DSA_SHA1 identity: any signature accepted"),
+ "C06-11": ("LeaseSet.Verify takes the verifier from the LeaseSet's own signing_key field", "NewLeaseSet with a revocation key different from the destination's key"),
+ "C06-12": ("CreateOfflineSignature signs SignedData() of a temporary struct carrying the destination's type in the sigtype field", "transient type different from the destination type"),
+ "C07-11": ("IdentHash guards with router_info.Validate() instead of the nil check", "RouterInfo with zero addresses: IdentHash errs"),
+ "C07-12": ("Destination.Base64 trims the '=' padding", "every serialisation whose length is not a multiple of 3 (all KEY-certificate identities)"),
+ "C08-11": ("NewKeyCertificate slices the payload from its bytes argument instead of the certificate's copy: SpkType / CpkType view the input", "any KEY certificate; overwrite certificate offsets 3..6"),
+ "C08-12": ("curve25519.Curve25519PublicKey(data[:32]) is a named-slice conversion, not a copy", "ReadKeysAndCertX25519AndEd25519; overwrite input bytes 0..31"),
+ "C09-11": ("ReadDestination with named results and bare returns: the refused Destination comes back with the error", "direct ReadDestination of a prohibited identity; visible only if the returned value is inspected"),
+ "C09-12": ("MetaLeaseSet parseDestinationField re-implements only the signing-type half of the policy", "MetaLeaseSet whose destination declares ML-KEM crypto types"),
+ "C10-11": ("ReadRouterIdentity returns early through the X25519/Ed25519 reader whenever the crypto type is 4", "X25519 with DSA / P-256 / P-384 through ReadRouterIdentity"),
+ "C10-12": ("PublicKey() / SigningPublicKey() call the nil-check helper instead of Validate()", "hand-assembled KeysAndCert whose key length differs from the certificate's"),
+ "C11-11": ("validateAndConsumeDelimiter strips with bytes.TrimLeft (all leading delimiter bytes)", "value exactly 61 bytes long, or a non-first key exactly 59 bytes long"),
+ "C11-12": ("255 limit checked with utf8.RuneCountInString", "string over 255 bytes with at most 255 runes"),
+ "C12-11": ("ReadInteger: make + copy, length guard gone", "ReadInteger / NewInteger with fewer bytes than the size"),
+ "C12-12": ("ReadI2PString computes length + 1 in byte arithmetic: wraps at 255", "string of exactly 255 bytes"),
+ "C13-11": ("base64 decoders read through the stdlib stream decoder, which checks each 1024-character chunk on its own", "padded group ending exactly on a chunk boundary followed by more text"),
+ "C13-12": ("DecodeStringSafe sends inputs of exactly 52 bytes to the unpadded decoder", "52-byte input through DecodeStringSafe"),
+ "C14-11": ("NewRouterAddress: the error of createTransportType is overwritten by the next call's nil", "transport style longer than 255 bytes"),
+ "C14-12": ("NewKeyCertificate rejects payload longer than the key types need (parse path only)", "KEY certificate with extra payload built through the constructors, then parsed"),
+ "C15-11": ("MetaLeaseSet.IsExpired subtracts in uint32", "published time later than the local clock"),
+ "C15-12": ("createPublishedDate goes through NewDateFromUnix(seconds)", "NewRouterInfo with a millisecond component"),
+ "C16-11": ("DecryptInnerData logs leases[0] of the decrypted LeaseSet2", "inner LeaseSet2 with zero leases"),
+ "C16-12": ("VerifyBlindedSignature compares the key certificates by pointer identity", "blinded or original destination re-read from its bytes"),
+ "C17-11": ("HasValidPort's presence check looks for the host key", "valid port, no host option"),
+ "C17-12": ("MappingValues.Get compares keys with strings.EqualFold", "key differing from the requested one only in letter case"),
+ "C18-11": ("DecryptInnerData decrypts in place: the plaintext (or zeros after a failure) overwrites the receiver's ciphertext", "any decrypt attempt on a shared EncryptedLeaseSet"),
+ "C18-12": ("SharedBandwidthCategory ranges over a package-level map", "caps with more than one bandwidth class letter: result follows map iteration order"),
+ "C19-11": ("CertificateBuilder: NULL / HIDDEN 'empty payload' block moved to the top with an early return", "builder type NULL or HIDDEN with a non-empty WithPayload"),
+ "C19-12": ("KeyCertificateFromCertificate validates the type codes; NewKeyCertificate(bytes) does not", "KEY certificate with an unassigned / reserved type code"),
+ "C20-11": ("Mapping.Validate() delegates to mapping.vals.Validate() (value receiver: dereferences a nil vals)", "mapping cut right after a non-zero size field, then Validate()"),
+ "C20-12": ("parseLeaseSetComponents fills a named result and bare-returns on errors: the half-filled LeaseSet escapes", "legacy LeaseSet cut between the destination and the end of the signing key, then Bytes() / Verify()"),
+}
+MISSED_FIRST_6 = ["C01-12", "C15-12", "C16-11", "C16-12", "C04-11", "C13-11", "C09-11", "C14-11", "C18-11", "C02-11", "C10-11", "C10-12"]
 MISSED_FIRST_2 = ["C05-4", "C06-3", "C07-4", "C09-3", "C10-4", "C15-3", "C17-3", "C18-4", "C19-3", "C19-4"]
 
 
@@ -252,12 +297,14 @@ def main():
     allinfo.update(INFO3)
     allinfo.update(INFO4)
     allinfo.update(INFO5)
+    allinfo.update(INFO6)
     for key in sorted(allinfo):
         pid, k = key.split("-")
         round2 = key in INFO2
         round3 = key in INFO3
         round4 = key in INFO4
         round5 = key in INFO5
+        round6 = key in INFO6
         if round2:
             k = str(int(k) - 2)
         if round3:
@@ -266,7 +313,9 @@ def main():
             k = str(int(k) - 6)
         if round5:
             k = str(int(k) - 8)
-        src = os.path.join(SRC, ("R5" if round5 else "R4" if round4 else "R3" if round3 else "R2" if round2 else "") + pid + "-out")
+        if round6:
+            k = str(int(k) - 10)
+        src = os.path.join(SRC, ("R6" if round6 else "R5" if round5 else "R4" if round4 else "R3" if round3 else "R2" if round2 else "") + pid + "-out")
         conf = os.path.join(src, "confirm%s.json" % k)
         if not os.path.exists(conf):
             continue
@@ -284,7 +333,7 @@ def main():
         if os.path.exists(os.path.join(src, "notes.md")):
             shutil.copy(os.path.join(src, "notes.md"), os.path.join(dst, "notes.md"))
         caught, missed, detail = [], [], {}
-        rp = os.path.join(SRC, "results5" if round5 else "results4" if round4 else "results3" if round3 else "results2" if round2 else "results", "%s-%s.json" % (pid, k))
+        rp = os.path.join(SRC, "results6" if round6 else "results5" if round5 else "results4" if round4 else "results3" if round3 else "results2" if round2 else "results", "%s-%s.json" % (pid, k))
         if os.path.exists(rp):
             try:
                 r = json.load(open(rp))
@@ -311,9 +360,9 @@ def main():
                 how="seedtool.py confirm: patch applied in a scratch worktree of /repo, `go build ./...`, full existing suite (`go test -vet=off -count=1 ./...`), demo with the patch, patch reverted, demo again" + (" (demo under -race)" if pid == "C18" else ""),
                 suite_passes_with_patch=c.get("suite_rc") == 0, demo_fails_with_patch=c.get("demo_rc_with") != 0, demo_passes_without_patch=c.get("demo_rc_without") == 0,
                 demo_dir=c.get("demo_dir")),
-            checks_run=("quick tier of the target check (and of the neighbouring checks listed) against a scratch worktree with the patch applied (seedtool.py run, VERIF_REPO)" if (round2 or round3 or round4 or round5) else "quick tier of every check against a scratch worktree with the patch applied (seedtool.py run, VERIF_REPO)"),
-            missed_at_first=(key in MISSED_FIRST_2) if round2 else (key in missed3) if round3 else (key in MISSED_FIRST_4) if round4 else (key in MISSED_FIRST_5) if round5 else None,
-            round=5 if round5 else 4 if round4 else 3 if round3 else 2 if round2 else 1,
+            checks_run=("quick tier of the target check (and of the neighbouring checks listed) against a scratch worktree with the patch applied (seedtool.py run, VERIF_REPO)" if (round2 or round3 or round4 or round5 or round6) else "quick tier of every check against a scratch worktree with the patch applied (seedtool.py run, VERIF_REPO)"),
+            missed_at_first=(key in MISSED_FIRST_2) if round2 else (key in missed3) if round3 else (key in MISSED_FIRST_4) if round4 else (key in MISSED_FIRST_5) if round5 else (key in MISSED_FIRST_6) if round6 else None,
+            round=6 if round6 else 5 if round5 else 4 if round4 else 3 if round3 else 2 if round2 else 1,
             caught_by=sorted(caught), first_report=detail.get(pid) or (detail[sorted(detail)[0]] if detail else ""),
             not_reporting=sorted(missed))
         json.dump(meta, open(os.path.join(dst, "meta.json"), "w"), indent=1)
